@@ -611,6 +611,10 @@ Definition known_goroutines : list (string * string) := [
   ("websocket.Transport.getConn", "websocket.conn.Send");
   ("websocket.Transport.getConn", "websocket.conn.Receive");
   ("mock.Transport.Transport", "mock.Transport.Transport$1");
+  (* since 4b1f091 the fasthttp client transport runs the third-party client on a goroutine of its own so that
+     the caller can leave when its context ends; a second goroutine releases req/resp of an abandoned request *)
+  ("http/fasthttp.Transport.Transport", "http/fasthttp.Transport.Transport$2");   (* done <- FastHTTPClient.Do / DoDeadline *)
+  ("http/fasthttp.Transport.Transport", "http/fasthttp.Transport.Transport$3");   (* <-done; ReleaseRequest; ReleaseResponse *)
   ("plugins/reverse.Provider.dispatch", "plugins/reverse.Provider.dispatch$1");
   ("plugins/reverse.Provider.Listen", "plugins/reverse.Provider.dispatch")
 ].
@@ -649,6 +653,17 @@ Definition goroutine_eqb (a b : string * string) : bool :=
 Definition unprotected_goroutines : list (string * string) := [
   ("socket.Handler.BindContext", "socket.Handler.bind");      (* only `defer cancel()`; runs Accept and the OnError callback; no request data reaches it *)
   ("mock.Transport.Transport", "mock.Transport.Transport$1"); (* no defer at all; everything request-dependent it runs is inside Service.Handle's recover *)
+  (* The two goroutines of the fasthttp client transport have no recover.  They run no hprose code beyond a channel
+     operation: $2 is fasthttp.Client.Do/DoDeadline (writing the request, reading and parsing the HTTP response —
+     third-party code, as net/http's client is for the http transport, where it runs on the caller's goroutine and on
+     net/http's own), $3 a channel receive and two Release calls.  No request decoding, no service, plugin or codec
+     code, no hprose frame parsing runs there; the Hprose payload is decoded by the caller after `err = <-done`.  The
+     fault classes that pass through $2 at all are the client-side malformed HTTP responses (frame-length, bad-payload
+     on fasthttp): they are error paths of fasthttp's parser, exercised in the correspondence run.  A panic there could
+     only come from fasthttp itself or from hooks configured on the public FastHTTPClient field (Dial, RetryIf), which
+     are not among the property's fault classes; it WOULD end the process, which is why they are listed here. *)
+  ("http/fasthttp.Transport.Transport", "http/fasthttp.Transport.Transport$2");
+  ("http/fasthttp.Transport.Transport", "http/fasthttp.Transport.Transport$3");
   ("plugins/reverse.Provider.dispatch", "plugins/reverse.Provider.dispatch$1");  (* runs only Provider.process, which recovers itself *)
   ("plugins/reverse.Provider.Listen", "plugins/reverse.Provider.dispatch")       (* runs proxy.end and the OnError callback *)
 ].
